@@ -76,6 +76,12 @@ pub fn template(t: u8) -> VDoc {
         3 => vdoc_codes("n3", 5, Some(1), &[], &[], "delta alpha"),
         4 => vdoc_codes("n4", 10, Some(1), &["a"], &["w", "x"], "omega"),
         5 => vdoc_codes("n5", 20, Some(3), &["b"], &["y", "v"], "beta"),
+        // bulk documents p<k> with unique name / code, for preloaded start states
+        t if t >= 100 => {
+            let k = t as u64 - 100;
+            let name = format!("p{k}");
+            vdoc_codes(&name, 100 + k, None, &[], &[name.as_str()], "bulk")
+        }
         _ => panic!("no template {t}"),
     }
 }
